@@ -661,7 +661,43 @@ BENIGN += [dict(id='%s:%s' % (k, f_.split('/')[-1]), file=f_, old='import', new=
 BENIGN += [dict(id='rename-locals:' + q, file=f_, old='def ' + q.split('.')[1], new=None,
                 fn=('rename_locals', q), props=ALL.split()) for f_, q in _RENAME_TARGETS]
 
+def _extract_removal_helper(src):
+    """Sampler.run: the block that removes empty shells becomes a helper method."""
+    a = src.index("                    if np.any(self.shell_n == 0):\n")
+    b = src.index("                    self.shell_n_sample_exp = np.copy(self.shell_n_sample)")
+    block = src[a:b]
+    import textwrap
+    body = textwrap.indent(textwrap.dedent(block), ' ' * 8)
+    helper = ("    def _remove_empty_shells(self):\n"
+              "        \"\"\"Remove shells without any points.\"\"\"\n" + body + "\n")
+    src2 = src[:a] + "                    self._remove_empty_shells()\n\n" + src[b:]
+    k = src2.index("    @property\n    def discard_exploration(self):")
+    return src2[:k] + helper + src2[k:]
+
+
+def _extract_checkpoint_helper(src):
+    """Sampler.run: `if self.filepath is not None: self.write_shell_update(...)` in the two
+    sampling-phase branches becomes a helper `_checkpoint(shell)`."""
+    old = ("                self.add_samples(shell, verbose=verbose)\n"
+           "                if self.filepath is not None:\n"
+           "                    self.write_shell_update(self.filepath, shell)\n")
+    new = ("                self.add_samples(shell, verbose=verbose)\n"
+           "                self._checkpoint(shell)\n")
+    assert src.count(old) == 2
+    src2 = src.replace(old, new)
+    helper = ("    def _checkpoint(self, shell):\n"
+              "        \"\"\"Write the incremental update for one shell, if requested.\"\"\"\n"
+              "        if self.filepath is not None:\n"
+              "            self.write_shell_update(self.filepath, shell)\n\n")
+    k = src2.index("    @property\n    def discard_exploration(self):")
+    return src2[:k] + helper + src2[k:]
+
+
 BENIGN += [
+    dict(id='extract-removal-helper', file=S, old="if np.any(self.shell_n == 0):", new=None,
+         fn=_extract_removal_helper, props=ALL.split()),
+    dict(id='extract-checkpoint-helper', file=S, old="self.write_shell_update(self.filepath, shell)",
+         new=None, fn=_extract_checkpoint_helper, props=ALL.split()),
     dict(id='with-statement', file=S, old="fstream = h5py.File(filepath_tmp, 'w')", new=None,
          fn=_with_statement, props=ALL.split()),
     dict(id='guard-clause-trim', file=U, old="            return False\n\n    def contains",
